@@ -18,6 +18,8 @@ Ops
                               all) in reads of the given buffer sizes (cycled)   -> n=<replica size>
   conc <ns> <keys>|<keys>|..  concurrent callers on store 0   -> seq=<highest id> ok
   chk <S> <ns> <keys>         keys must map to distinct ids in 1..seq that map back -> ok distinct=<n>
+  http <keys>                 keys [a-z0-9]+; a server translates them one Set at a time, a fresh store
+                              replicates the server's log over HTTP   -> same=true <ids csv>
 `#spec` carries the answer of Spec (a pure function of the list of committed entries).
 -/
 import PV.Common.Proto
@@ -201,6 +203,25 @@ def step (st : St) (ws : List String) : St × Ans :=
       | .ok k => (st, ans2 ("x" ++ showHex k) sp "reverse")
       | .error m => (st, ans2 m sp "reverse")
     | _, _, _ => bad
+  | ["http", ks] =>
+    match parseKeys ks with
+    | some keys =>
+      if keys.any (fun k => k = [] ∨ k.any (fun b => ¬ ((97 ≤ b ∧ b ≤ 122) ∨ (48 ≤ b ∧ b ≤ 57)))) then bad else
+      -- a store of its own: one translation call per key, then the ids of all keys
+      let ns := NsKey.col [104]
+      let res := keys.foldlM (fun (s : Store RHH) k => do
+        let (s', _, _) ← translate T s ns [k]
+        pure s') (Store.empty RHH false)
+      let specLog := keys.foldl (fun l k => (Spec.translate l false ns [k]).1) []
+      let sp := "same=true " ++ showIds (keys.map (fun k => (Spec.idOf specLog ns k).getD 0))
+      match res with
+      | .ok s =>
+        match translate T { s with readOnly := true } ns keys with
+        | .ok (_, ids, true) => (st, ans2 ("same=true " ++ showIds ids) sp "http")
+        | .ok (_, _, false) => (st, ans2 "same=true err:readonly" sp "http")
+        | .error m => (st, ans2 m sp "http")
+      | .error m => (st, ans2 m sp "http")
+    | none => bad
   | [op, si] =>
     if op = "restart" ∨ op = "restartq" then
       match si.toNat? with
